@@ -164,7 +164,7 @@ pub fn gen_case<R: Rng>(rng: &mut R, real: bool) -> Case {
         let script = match rng.gen_range(0, 3) {
             0 => Script::Bowl { centre: bounds.iter().map(|(lo, hi)| lo + (hi - lo) * rng.gen::<f64>()).collect(), wall: if rng.gen_bool(0.5) { Some(bounds[0].0 + 0.7 * (bounds[0].1 - bounds[0].0)) } else { None } },
             1 => Script::Random { p: [0.2, 0.1, 0.5, 0.2], seed: rng.gen(), gap: 1. },
-            _ => Script::Random { p: [0.05, 0.05, 0.8, 0.1], seed: rng.gen(), gap: 1e-3 },
+            _ => Script::Random { p: [0.05, 0.05, 0.8, 0.1], seed: rng.gen(), gap: [1e-3, 1e-3, 1e-16, 1e-300, 5e-324][rng.gen_range(0, 5)] },
         };
         let cfg = mc::rand_cfg(rng, 0., 20_000);
         let mut sc = ScriptedCase { init, bounds, script, cfg, via_api: rng.gen_bool(0.3) };
